@@ -21,6 +21,21 @@ def _s(x):          # the scalar inner affine argument used by element-wise atom
     return x[0] + 0.5 * x[1]
 
 
+def scale_value(x):
+    """value the variable scale of the perspective atoms pexpv/plogv is pinned to at grid point x (dyadic, > 0)"""
+    return 0.75 + 0.5 * abs(x[0])
+
+
+def _pexpv(x):
+    sv = scale_value(x)
+    return sv * math.exp(_s(x) / sv)
+
+
+def _plogv(x):
+    sv = scale_value(x)
+    return sv * math.log(_s(x) / sv)
+
+
 def _ent(x):
     return -sum(v * math.log(v) for v in x)
 
@@ -50,6 +65,12 @@ ATOMS = {
     'pexpc':    (+1, 'Persp', lambda x: 2.0 * math.exp(_s(x) / 2.0), 'all', False, True, 'rd'),      # scale = 2.0
     'plog':     (-1, 'Persp', lambda x: x[1] * math.log(x[0] / x[1]), 'pos', False, True, 'rd'),
     'plogc':    (-1, 'Persp', lambda x: 2.0 * math.log(_s(x) / 2.0), 'pos', False, True, 'rd'),
+    # scale = a separate scalar decision variable (pinned to scale_value(x)); the `e` variants use an event-wise
+    # (2-scenario) decision as the argument
+    'pexpv':    (+1, 'Persp', _pexpv, 'all', False, True, 'rd'),
+    'plogv':    (-1, 'Persp', _plogv, 'pos', False, True, 'rd'),
+    'pexpve':   (+1, 'Persp', _pexpv, 'all', False, True, 'd'),
+    'plogve':   (-1, 'Persp', _plogv, 'pos', False, True, 'd'),
     'maxof':    (+1, 'Piecewise', lambda x: max(x[0], 2 * x[1] - 1, 0.25 - 0.5 * x[0]), 'all', True, True, 'rd'),
     'minof':    (-1, 'Piecewise', lambda x: min(x[0], 2 * x[1] - 1, 0.25 - 0.5 * x[0]), 'all', True, True, 'rd'),
     # worst-case expectations over all distributions on the support z in [-1, 1]:
@@ -81,9 +102,31 @@ SYMBOLS = {
     'f+y': ('addy', None), 'y+f': ('raddy', None), 'f-y': ('suby', None), 'y-f': ('rsuby', None),
     'np2*f': ('lmulnp', 2.0), 'f*np-2': ('rmulnp', -2.0), 'f*i3': ('rmuli', 3), '-1*f': ('lmuli', -1),
     'f+np1': ('addnp', 1.0),
+    '2.5*f': ('lmul', 2.5), 'f*.4': ('rmul', 0.4),
 }
 ALPHA12 = ['neg', '2*f', 'f*2', 'f*-2', '.5*f', '0*f', 'f+1', 'f-1', 'f+y', 'f-y', '1-f', 'y-f']
 ALPHA_EXT = ['-2*f', 'f*.5', 'f*0', '1+f', 'y+f', 'np2*f', 'f*np-2', 'f*i3', '-1*f', 'f+np1']
+
+
+# perspective family: [affine addition] [scaling] [affine addition] with multipliers {1, 2.5, 0.4, -1, -2, 2}
+PERSP_ATOMS = {'ro': ['pexpv', 'plogv'], 'dro': ['pexpv', 'plogv', 'pexpve', 'plogve']}
+PERSP_PRE = [None, 'f+1', 'f-y', '1-f']
+PERSP_MUL = [None, '2.5*f', 'f*.4', 'neg', 'f*-2', '2*f']
+PERSP_POST = [None, 'f+1', 'y+f', 'f-y']
+
+
+def persp_chains():
+    out = []
+    for a in PERSP_PRE:
+        for b in PERSP_MUL:
+            for c in PERSP_POST:
+                out.append([t for t in (a, b, c) if t is not None])
+    seen, uniq = set(), []
+    for ch in out:
+        if tuple(ch) not in seen:
+            seen.add(tuple(ch))
+            uniq.append(ch)
+    return uniq
 
 
 def chain_state(chain):
